@@ -7,7 +7,7 @@
 EXTENDS PathSafe, Json
 CONSTANT Eps
 VARIABLE x
-Init == x \in {s \in Scenarios : s.ep \in Eps}
+Init == InSpace(x, Eps)
 Next == UNCHANGED x
 Emit == PrintT(<<"SCN", ToJson(x @@ [esc |-> IF Contained(x) THEN 0 ELSE 1, nt |-> Cardinality(Touches(x))])>>)
 =============================================================================
